@@ -376,7 +376,7 @@ def rule_band_guard(ctx: Ctx) -> int:
 def run(ctx: Ctx) -> None:
     ctx.floor("C02.BAND-GUARD", rule_band_guard(ctx), 2)
     rule_skeleton(ctx)
-    ctx.floor("C02.BAND-OWNER", rule_band_owner(ctx), 14)
+    ctx.floor("C02.BAND-OWNER", rule_band_owner(ctx), 8)
     rule_pixelwise(ctx)
     rule_zero_var(ctx)
     rule_point_interval(ctx)
